@@ -38,6 +38,8 @@ type Job struct {
 }
 
 type FoundViolation struct {
+	JobStart  int    `json:"job_start"`  // first run index and stride of the worker process that found it:
+	JobStride int    `json:"job_stride"` // the runs this process executed before, in order
 	Index   int    `json:"index"`
 	RunSeed uint64 `json:"runseed"`
 	Class   string `json:"class"`
@@ -360,7 +362,7 @@ func runBatch(t *testing.T, p Property, job *Job) (res BatchResult) {
 				if len(d) > 2000 {
 					d = d[:2000] + " ..."
 				}
-				res.Violations = append(res.Violations, FoundViolation{Index: idx, RunSeed: rs, Class: o.V.Class, Detail: d, Replay: path, Race: job.Race})
+				res.Violations = append(res.Violations, FoundViolation{JobStart: job.Start, JobStride: job.Stride, Index: idx, RunSeed: rs, Class: o.V.Class, Detail: d, Replay: path, Race: job.Race})
 			}
 		}
 	}
